@@ -1,9 +1,9 @@
 SPECIFICATION Spec
 CONSTANTS
-  N = 4
+  N = 3
   RD = 2
-  CAP = 0
-  MaxOps = 5
+  CAP = 2
+  MaxOps = 4
   FaultAt = 0
   KeepStaleOnFail = FALSE
   PanicOnMiss = FALSE
@@ -12,6 +12,6 @@ CONSTANTS
   SilentSeekHit = FALSE
   EarlyReturnOnForeign = FALSE
   KeepOnGet = FALSE
-  Foreign = {}
+  Foreign = {2, 3}
 INVARIANTS NoPanic DataIdentity ErrorsTrue NoStaleMapping CacheBounded Capacities NoLeak
 CHECK_DEADLOCK TRUE
